@@ -37,15 +37,16 @@ prop("C02", [H("K8_storedmeta", quick={"wall": "140s", "shards": 8}), H("H02_sto
 prop("C03", [H("K6_boundaries"), H("H03_coder"), H("H03_dv", quick={"wall": "140s", "shards": 16, "param": "maxDocs=2,maxSeq=4,lite=1"}, thorough={"wall": "1500s", "shards": 16, "param": "maxDocs=3,maxSeq=4"}),
              # the visit state carried over to a second segment whose fields (and so field ids) are symbolic
              H("H03_dv", quick={"wall": "140s", "shards": 16, "param": "maxDocs=1,maxSeq=1,secondSeg=2,seg2sym=1"}, thorough={"wall": "1500s", "shards": 16, "param": "maxDocs=2,maxSeq=2,secondSeg=2,seg2sym=1"})])
-prop("C04", [H("K7_footer"), H("H04_persist", quick={"wall": "140s", "shards": 16, "param": "lite=1,maxDocs=1"}, thorough={"wall": "1500s", "shards": 16, "param": "maxDocs=2"})])
-prop("C05", [H("K9_copystored"), H("H02_big", quick={"wall": "140s", "shards": 12}), H("H05_merge", common={"param": "maxDocs=1,tieReopen=1,maxOcc=1"}, quick={"wall": "140s", "shards": 12}, thorough={"wall": "1500s", "shards": 16, "param": "maxDocs=2,tieReopen=0,maxOcc=1,gen2=1"}),
+prop("C04", [H("K7_footer"), H("H04_persist", quick={"wall": "140s", "shards": 16, "param": "lite=1,maxDocs=1"}, thorough={"wall": "1500s", "shards": 16, "param": "maxDocs=2"}),
+             H("H04_persist", quick={"wall": "140s", "shards": 16, "param": "maxDocs=1"}, thorough={"wall": "1500s", "shards": 16, "param": "lite=1,maxDocs=2"})])
+prop("C05", [H("K9_copystored"), H("H02_big", quick={"wall": "140s", "shards": 12}), H("H05_merge", common={"param": "maxDocs=1,tieReopen=0,maxOcc=1"}, quick={"wall": "140s", "shards": 16}, thorough={"wall": "1500s", "shards": 16, "param": "maxDocs=2,tieReopen=0,maxOcc=1,gen2=1"}),
              # field names that sort before "_id"
              H("H05_merge", common={"param": "maxDocs=1,tieReopen=1,maxOcc=1,upperNames=1,symTyp=0"}, quick={"wall": "140s", "shards": 4}, thorough={"skip": True}),
              # three inputs (thorough only)
              H("H05_merge", quick={"skip": True}, thorough={"wall": "1500s", "shards": 16, "param": "maxDocs=1,tieReopen=1,maxOcc=1,nInputs=3"}),
              # multi-valued stored fields (up to 3 occurrences with array positions), every field present and stored
              H("H05_merge", common={"param": "maxDocs=1,tieReopen=1,maxOcc=3,storeAll=1,always=1,fixAP=1,symTyp=0"}, quick={"wall": "140s", "shards": 4}, thorough={"wall": "1500s", "shards": 16, "param": "maxDocs=2,tieReopen=1,maxOcc=3,storeAll=1,always=1,fixAP=1,symTyp=0"})])
-prop("C06", KERNELS_CODEC[2:] + [H("H06_large", quick={"wall": "140s", "shards": 8, "shard-depth": 3, "param": "nBlocks=3,nProbes=2"}, thorough={"wall": "1500s", "shards": 16, "shard-depth": 3, "param": "nLarge=2100"}), H("H06_locids"), H("H06_enum", quick={"wall": "140s", "shards": 4}), H("H06_merge", quick={"wall": "140s", "shards": 16, "param": "maxDocs=1,tieReopen=1,lite=1"}, thorough={"wall": "1500s", "shards": 16, "param": "maxDocs=2,tieReopen=0,gen2=1"})])
+prop("C06", KERNELS_CODEC[2:] + [H("H06_large", quick={"wall": "140s", "shards": 8, "shard-depth": 3, "param": "nBlocks=3,nProbes=2"}, thorough={"wall": "1500s", "shards": 16, "shard-depth": 3, "param": "nLarge=2100"}), H("H06_locids"), H("H06_enum", quick={"wall": "140s", "shards": 4}), H("H06_merge", quick={"wall": "150s", "shards": 16, "param": "maxDocs=1,tieReopen=0"}, thorough={"wall": "1500s", "shards": 16, "param": "maxDocs=2,tieReopen=0,gen2=1"})])
 PLAN["C06"]["harnesses"].append(H("H06_merge", quick={"skip": True}, thorough={"wall": "1500s", "shards": 16, "param": "maxDocs=1,tieReopen=1,lite=1,nInputs=3"}))
 prop("C07", [
     H("K2_uvarint_rt"), H("K2_uvarint_agree"),
@@ -64,26 +65,30 @@ prop("C12", [H("K5_synonym"), H("H12_syn", quick={"wall": "140s", "shards": 16, 
 prop("C13", [H("H13_synmerge", common={"param": "maxSyn=1,maxSyn0=2,emptyTerm=0,drop1=0,reopen=0"}, quick={"wall": "140s", "shards": 6}, thorough={"skip": True}),
              H("H13_synmerge", quick={"wall": "140s", "shards": 16, "param": "maxSyn=1,emptyTerm=1,drop1=0,reopen=0"}, thorough={"wall": "1500s", "shards": 16, "param": "maxSyn=2,emptyTerm=1,twoGen=1"})])
 prop("C11", [H("H11_pool", quick={"wall": "100s", "shards": 8}), H("H11_effects", common={"race": True}, quick={"wall": "100s", "shards": 7}), H("H11_syn", common={"race": True})])
-prop("C17", [H("H17_writeTo"), H("H17_persist"),
-             H("H17_merge", common={"param": "mergeBuf=16"}, quick={"wall": "100s"}),
+prop("C17", [H("H17_writeTo", quick={"wall": "100s", "shards": 2}), H("H17_persist", quick={"wall": "100s", "shards": 4}),
+             # buffer sizes: 1 (every write of the merge reaches the file on its own), 16, 64 bytes
+             H("H17_merge", common={"param": "mergeBuf=1"}, quick={"wall": "100s", "shards": 4}),
+             H("H17_merge", common={"param": "mergeBuf=16"}, quick={"wall": "100s", "shards": 2}),
              H("H17_merge", common={"param": "mergeBuf=64"}, quick={"wall": "100s"})])
-prop("C18", [H("H18_cancel", quick={"wall": "100s"})])
-prop("C20", [H("H20_refs", common={"param": "maxOps=6"}, quick={"wall": "150s", "shards": 8}, thorough={"wall": "900s", "shards": 16, "param": "maxOps=8"}), H("H20_openfail"), H("H20_lockset", common={"race": True})])
+prop("C18", [H("H18_cancel", quick={"wall": "100s"}), H("H18_vec", common={"vectors": True}, quick={"wall": "100s"})])
+prop("C20", [H("H20_refs", quick={"wall": "150s", "shards": 16, "param": "maxOps=8"}, thorough={"wall": "1500s", "shards": 16, "param": "maxOps=10"}), H("H20_openfail"), H("H20_lockset", common={"race": True})])
 prop("C10", [H("H10_effects", quick={"wall": "140s", "shards": 4}), H("H10_seq", quick={"wall": "140s", "shards": 16, "param": "aMax=1,bMax=1"}, thorough={"wall": "1500s", "shards": 16, "param": "aMax=2,bMax=2"}),
              # synonym batch after synonym batch on the pooled builder (fewer / more / equal numbers of terms)
              H("H10_syn", quick={"wall": "140s", "shards": 8}, thorough={"wall": "1500s", "shards": 16, "param": "aSyn=2,bSyn=2"})])
 prop("C09", [H("H06_large", quick={"wall": "140s", "shards": 6, "shard-depth": 3, "param": "nBlocks=3,nProbes=2"}, thorough={"skip": True}), H("K1_chunksize"), H("K1_chunktable"), H("K7_footer"), H("K6_boundaries"),
              # files written by the pinned release (harness/corpus_data.go, frozen) read by the current code
              H("H09_corpus"),
-             H("H09_layout", quick={"wall": "140s", "shards": 8, "param": "maxDocs=1,lite=1"}, thorough={"wall": "1500s", "shards": 16, "param": "maxDocs=2"}),
+             H("H09_layout", quick={"wall": "140s", "shards": 16, "param": "maxDocs=1"}, thorough={"wall": "1500s", "shards": 16, "param": "maxDocs=2"}),
              # one number at a time full width (all ten varint length classes of every layout element)
              H("H09_layout", quick={"wall": "140s", "shards": 8, "param": "maxDocs=1,lite=1,wide=12"}, thorough={"wall": "1500s", "shards": 16, "param": "maxDocs=2,lite=1,wide=24"}),
              H("H09_layout_merged", quick={"wall": "140s", "shards": 8, "param": "lite=1"}, thorough={"wall": "1500s", "shards": 16})])
 VEC = {"vectors": True}
-prop("C14", [H("H14_search", common=dict(VEC), quick={"wall": "140s", "shards": 16, "param": "maxDocs=2,nCat=2,nQueries=1,nSims=1,maxK=3"}, thorough={"wall": "1500s", "shards": 16, "param": "maxDocs=2"})])
-prop("C15", [H("H15_vecmerge", common=dict(VEC), quick={"wall": "140s", "shards": 16, "param": "nCat=2,reopen=0,maxDocs=1,secondField=1"}, thorough={"wall": "1500s", "shards": 16})])
-prop("C16", [H("H16_recheck", common=dict(VEC)), H("H16_history", common=dict(VEC), quick={"wall": "140s", "shards": 16, "param": "maxEvents=4"}, thorough={"wall": "1500s", "shards": 16, "param": "maxEvents=6"})])
-prop("C19", [H("H19_faults", common=dict(VEC, param="large=1"), quick={"wall": "140s", "shards": 8})])
+prop("C14", [H("H14_search", common=dict(VEC), quick={"wall": "160s", "shards": 16, "param": "maxDocs=2,nCat=2,nQueries=2,nSims=2,maxK=3"}, thorough={"wall": "1500s", "shards": 16, "param": "maxDocs=2"})])
+prop("C15", [H("H15_vecmerge", common=dict(VEC), quick={"wall": "140s", "shards": 16, "param": "nCat=2,reopen=1,maxDocs=1,secondField=1"}, thorough={"wall": "1500s", "shards": 16})])
+prop("C16", [H("H16_recheck", common=dict(VEC)), H("H16_history", common=dict(VEC), quick={"wall": "140s", "shards": 16, "param": "maxEvents=5"}, thorough={"wall": "1500s", "shards": 16, "param": "maxEvents=7"})])
+prop("C19", [H("H19_faults", common=dict(VEC, param="large=1"), quick={"wall": "140s", "shards": 8}),
+             # the n-th call of each engine operation, for every n of the fault-free run; one or two vector fields
+             H("H19_nth", common=dict(VEC), quick={"wall": "140s", "shards": 2})])
 
 # thorough only: the section / id tables are Go maps; the same runs with maps iterated in reverse insertion order
 for _pid, _name, _param in (("C04", "H04_persist", "lite=1,maxDocs=1"), ("C09", "H09_layout", "maxDocs=1,lite=1"), ("C13", "H13_synmerge", "maxSyn=1,emptyTerm=1,drop1=0,reopen=0"), ("C12", "H12_syn", "maxSyn=2")):
